@@ -11,6 +11,6 @@ GROUP = {
     "stub_sets": ["file"],
     "kani_args": ["-Z", "stubbing"],
     # modules of the harness crate whose items the generated playback tests need in scope
-    "modules": ["hfs", "c10_write"],
+    "modules": ["hfs", "c10_write", "c10_batch", "c11_retention"],
     "cbmc_args": [(r".", ["--unwindset", _IOERR_DROP + ":1"])],
 }
